@@ -1,0 +1,135 @@
+//go:build verif
+
+// Contracts for the deductive verifier in /verif (govc): every public
+// operation of the indexing queue keeps its representation invariant (C30).
+// Comment-only file, compiled only with -tags verif.
+
+package main
+
+// container/heap on a pqueue (assumed, like heap.Remove in
+// zz_verif_contracts.go; rely/guarantee on the five pqueue methods proved
+// there). PQ is the heap the call works on.
+// Pop: takes out one item that was on the heap and marks it off-heap; every
+// other item stays on the heap, the slots keep knowing their items.
+//@ func heap.Pop
+//@   trusted
+//@   flag only_for=main.(*Queue)
+//@   requires typeis(h, "*pqueue") && as(h, "*pqueue") != nil && okPQ(deref(as(h, "*pqueue"))) && len(deref(as(h, "*pqueue"))) > 0
+//@   ensures typeis(result, "*queueItem") && as(result, "*queueItem") != nil && as(result, "*queueItem").heapIdx == -1
+//@   ensures exists k int :: 0 <= k && k < old(len(deref(as(h, "*pqueue")))) && as(result, "*queueItem") == old(deref(as(h, "*pqueue"))[k])
+//@   ensures okPQ(deref(as(h, "*pqueue"))) && len(deref(as(h, "*pqueue"))) == old(len(deref(as(h, "*pqueue")))) - 1
+//@   ensures forall k int :: 0 <= k && k < old(len(deref(as(h, "*pqueue")))) && old(deref(as(h, "*pqueue"))[k]) != as(result, "*queueItem") ==> old(deref(as(h, "*pqueue"))[k]).heapIdx >= 0 && old(deref(as(h, "*pqueue"))[k]).heapIdx < len(deref(as(h, "*pqueue"))) && deref(as(h, "*pqueue"))[old(deref(as(h, "*pqueue"))[k]).heapIdx] == old(deref(as(h, "*pqueue"))[k])
+//@   ensures forall p *queueItem :: {p.heapIdx} p != nil && old(p.heapIdx) < 0 ==> p.heapIdx == old(p.heapIdx)
+//@   assigns deref(as(h, "*pqueue")), deref(as(h, "*pqueue"))[*], fieldof(queueItem, heapIdx)
+
+// Push: puts an off-heap item on the heap; everything that was on it stays.
+//@ func heap.Push
+//@   trusted
+//@   flag only_for=main.(*Queue)
+//@   requires typeis(h, "*pqueue") && as(h, "*pqueue") != nil && okPQ(deref(as(h, "*pqueue")))
+//@   requires typeis(x, "*queueItem") && as(x, "*queueItem") != nil && as(x, "*queueItem").heapIdx < 0
+//@   ensures okPQ(deref(as(h, "*pqueue"))) && len(deref(as(h, "*pqueue"))) == old(len(deref(as(h, "*pqueue")))) + 1
+//@   ensures as(x, "*queueItem").heapIdx >= 0 && as(x, "*queueItem").heapIdx < len(deref(as(h, "*pqueue"))) && deref(as(h, "*pqueue"))[as(x, "*queueItem").heapIdx] == as(x, "*queueItem")
+//@   ensures forall k int :: 0 <= k && k < old(len(deref(as(h, "*pqueue")))) ==> old(deref(as(h, "*pqueue"))[k]).heapIdx >= 0 && old(deref(as(h, "*pqueue"))[k]).heapIdx < len(deref(as(h, "*pqueue"))) && deref(as(h, "*pqueue"))[old(deref(as(h, "*pqueue"))[k]).heapIdx] == old(deref(as(h, "*pqueue"))[k])
+//@   ensures forall p *queueItem :: {p.heapIdx} p != nil && p != as(x, "*queueItem") && old(p.heapIdx) < 0 ==> p.heapIdx == old(p.heapIdx)
+//@   assigns deref(as(h, "*pqueue")), deref(as(h, "*pqueue"))[*], fieldof(queueItem, heapIdx)
+
+// Fix: re-establishes the order after the item in slot i changed; the same
+// items stay on the heap.
+//@ func heap.Fix
+//@   trusted
+//@   flag only_for=main.(*Queue)
+//@   requires typeis(h, "*pqueue") && as(h, "*pqueue") != nil && okPQ(deref(as(h, "*pqueue"))) && 0 <= i && i < len(deref(as(h, "*pqueue")))
+//@   ensures okPQ(deref(as(h, "*pqueue"))) && len(deref(as(h, "*pqueue"))) == old(len(deref(as(h, "*pqueue"))))
+//@   ensures forall k int :: 0 <= k && k < old(len(deref(as(h, "*pqueue")))) ==> old(deref(as(h, "*pqueue"))[k]).heapIdx >= 0 && old(deref(as(h, "*pqueue"))[k]).heapIdx < len(deref(as(h, "*pqueue"))) && deref(as(h, "*pqueue"))[old(deref(as(h, "*pqueue"))[k]).heapIdx] == old(deref(as(h, "*pqueue"))[k])
+//@   ensures forall p *queueItem :: {p.heapIdx} p != nil && old(p.heapIdx) < 0 ==> p.heapIdx == old(p.heapIdx)
+//@   assigns deref(as(h, "*pqueue")), deref(as(h, "*pqueue"))[*], fieldof(queueItem, heapIdx)
+
+// The item constructor stored in the queue: a new off-heap item for that id.
+//@ func main.Queue.newQueueItem(repoID)
+//@   ensures result != nil && fresh(result) && result.repoID == repoID && result.heapIdx == -1
+//@   assigns nothing
+//@ func main.NewQueue$1
+//@   ensures result != nil && fresh(result) && result.repoID == repoID && result.heapIdx == -1
+//@   assigns nothing
+
+// getOrAdd: the item of that id, created off-heap if it did not exist; the
+// invariant survives the insertion.
+//@ func main.(*Queue).getOrAdd
+//@   requires q != nil && okQueue(q) && q.newQueueItem != nil
+//@   ensures okQueue(q) && result != nil && has(q.items, repoID) && q.items[repoID] == result
+//@   ensures q.pq == old(q.pq)
+//@   ensures forall k int :: 0 <= k && k < len(q.pq) ==> q.pq[k] == old(q.pq[k])
+//@   assigns mapof(q.items)
+
+// Library calls the operations make that do not touch the queue (assumed).
+//@ func reflect.DeepEqual
+//@   trusted
+//@   flag only_for=main.(*
+//@   assigns nothing
+//@ func time.Now
+//@   trusted
+//@   flag only_for=main.(*
+//@   assigns nothing
+//@ func time.Unix
+//@   trusted
+//@   flag only_for=main.(*
+//@   assigns nothing
+//@ func main.(*backoff).Allow
+//@   requires b != nil
+//@   assigns nothing
+//@ func main.(*backoff).Reset
+//@   requires b != nil
+//@   assigns b.consecutiveFailures, b.backoffUntil
+//@ func main.(*backoff).Fail
+//@   trusted
+//@   requires b != nil
+//@   assigns b.consecutiveFailures, b.backoffUntil
+
+// Pop: an empty heap gives (zero, false) and changes nothing; otherwise the
+// options of an item that was on the heap, which is off-heap afterwards (it
+// stays known to the queue); the invariant survives.
+//@ func main.(*Queue).Pop
+//@   requires q != nil && okQueue(q) && metricQueueLen != nil && metricQueueCap != nil
+//@   ensures okQueue(q)
+//@   ensures ok == (old(len(q.pq)) > 0)
+//@   ensures ok ==> len(q.pq) == old(len(q.pq)) - 1
+//@   ensures !ok ==> len(q.pq) == 0
+
+// AddOrUpdate: the repository is known afterwards, carries the given options,
+// and the invariant survives (inserted, re-ordered in place, or left off-heap
+// while backing off).
+//@ func main.(*Queue).AddOrUpdate
+//@   requires q != nil && okQueue(q) && q.newQueueItem != nil && metricQueueLen != nil && metricQueueCap != nil
+//@   ensures okQueue(q) && has(q.items, opts.RepoID)
+
+// Bump: the invariant survives; exactly the unknown ids are returned, in order.
+//@ func main.(*Queue).Bump
+//@   requires q != nil && okQueue(q) && metricQueueLen != nil && metricQueueCap != nil
+//@   loop 1:
+//@     invariant q != nil && okQueue(q)
+//@     invariant forall a int :: 0 <= a && a < len(missing) ==> !has(q.items, missing[a])
+//@     invariant forall m int :: 0 <= m && m <= $i && !has(q.items, ids[m]) ==> (exists a int :: 0 <= a && a < len(missing) && missing[a] == ids[m])
+//@     invariant missing == nil || freshsince(1, missing)
+//@     invariant forall k uint32 :: has(q.items, k) == before(1, has(q.items, k))
+//@   ensures okQueue(q)
+//@   ensures forall a int :: 0 <= a && a < len(result) ==> !has(q.items, result[a])
+//@   ensures forall m int :: 0 <= m && m < len(ids) && !has(q.items, ids[m]) ==> (exists a int :: 0 <= a && a < len(result) && result[a] == ids[m])
+
+// SetIndexed: the repository is known afterwards with the reported state; a
+// failed repository is off the heap; the invariant survives.
+//@ func main.(*Queue).SetIndexed
+//@   requires q != nil && okQueue(q) && q.newQueueItem != nil
+//@   ensures okQueue(q) && has(q.items, opts.RepoID) && q.items[opts.RepoID].indexState == state
+//@   ensures state == indexStateFail ==> q.items[opts.RepoID].heapIdx < 0
+
+// The documented priority as one formula, and the facts container/heap needs
+// of it: a strict weak order (irreflexive, transitive, incomparability
+// transitive) - proved as lemmas.
+//@ pure func qLess(x *queueItem, y *queueItem) bool = ite(x.indexed != y.indexed, !x.indexed, ite((x.indexState == indexStateFail) != (y.indexState == indexStateFail), !(x.indexState == indexStateFail), x.seq < y.seq))
+//@ lemma qLessIrreflexive: forall a *queueItem :: !qLess(a, a)
+//@ lemma qLessTransitive: forall a, b, c *queueItem :: qLess(a, b) && qLess(b, c) ==> qLess(a, c)
+//@ lemma qLessIncomparableTransitive: forall a, b, c *queueItem :: !qLess(a, b) && !qLess(b, a) && !qLess(b, c) && !qLess(c, b) ==> !qLess(a, c) && !qLess(c, a)
+//@ func main.lessQueueItemPriority#formula
+//@   extends main.lessQueueItemPriority
+//@   ensures result == qLess(x, y)
